@@ -209,6 +209,22 @@ func c05Programs(tier string) []*Spec {
 			out = append(out, sp)
 		}
 	}
+	// more bars than queue length: re-pushes go through detached goroutines (partition event push-detached)
+	for _, rf := range []string{"auto", "manual"} {
+		for _, q := range []int{0, 1} {
+			sp := &Spec{Name: "c05-nq", Refresh: rf, Q: q, Notifier: true}
+			sp.Bars = []BarSpec{{Total: 2}, {Total: 2}}
+			sp.Main = []Op{{K: "add", B: 0}, {K: "add", B: 1}}
+			for i := 0; i < 2; i++ {
+				ops := completeOps(i, 2)
+				if rf == "manual" {
+					ops = append(ops, Op{K: "refresh"}, Op{K: "refresh"}, Op{K: "refresh"})
+				}
+				sp.Clients = append(sp.Clients, ops)
+			}
+			out = append(out, sp)
+		}
+	}
 	if tier == "thorough" {
 		for _, rf := range []string{"auto", "manual"} {
 			ends := []ending{endings[0], endings[3], endings[4]}
@@ -236,6 +252,14 @@ func init() {
 				b := bound
 				if len(sp.Bars) >= 3 {
 					b = 1
+				}
+				if sp.Q >= 0 && sp.Q < len(sp.Bars) {
+					its := specItems("C05", sp, 1, allStrats, []string{"n>q"}, c05Oracle)
+					for i := range its {
+						its[i].Cfg = mcrt.Config{MaxSteps: 4000, FairAfter: 1500}
+					}
+					items = append(items, its...)
+					continue
 				}
 				items = append(items, specItems("C05", sp, b, allStrats, nil, c05Oracle)...)
 			}
